@@ -193,6 +193,17 @@ where
     for<'x> u128: TryFrom<&'x T>,
 {
     let v = T::parse(a[0]);
+    // `R<fill>.<align>.<+>.<#>.<0>.<width>`: generated table with the width supplied at run time; `S…`: literal format strings
+    if let Some(rest) = a[2].strip_prefix('R') {
+        let (key, w) = rest.rsplit_once('.').unwrap();
+        let w: usize = w.parse().unwrap();
+        let s = fmt_rt!(a[1], key, w, v);
+        let agree = match u128::try_from(&v) {
+            Ok(x) => s == fmt_rt!(a[1], key, w, x),
+            Err(_) => true,
+        };
+        return format!("ok {} {}", chars_token(&s), tok_bool(agree));
+    }
     let s = fmt_table!(a[1], a[2], v);
     // model-free oracle: Rust's own formatting of the same value as a u128 (when it fits)
     let agree = match u128::try_from(&v) {
